@@ -524,7 +524,7 @@ fn body_of(prog: &WProgram, f: &WFunc) -> String {
         }
     }
     for c in &f.calls {
-        if let Some(callee) = prog.funcs().into_iter().find(|g| &g.name == c && g.shape == 'h') {
+        if let Some(callee) = prog.funcs().into_iter().find(|g| &g.name == c && g.shape == 'h' && !g.flags.contains('M') && !g.flags.contains('T')) {
             if callee.flags.contains('N') && !f.flags.contains('N') {
                 s.push_str(&format!("    ns1::{}();\n", c));
             } else {
@@ -1469,6 +1469,7 @@ pub fn gen_wide(rng: &mut Rng, o: &WideOpts) -> WProgram {
                 _ => continue,
             };
             let other_shape = if tshape == 'h' { 'p' } else { 'h' };
+            let is_entry = entries.iter().any(|(_, n)| *n == t);
             let plain = |name: String, shape: char, flags: &str| WFunc {
                 name,
                 shape,
@@ -1482,8 +1483,9 @@ pub fn gen_wide(rng: &mut Rng, o: &WideOpts) -> WProgram {
             match rng.below(7) {
                 // an overload in the same namespace as a root function
                 0 | 1 => added.push(plain(tname.clone(), other_shape, "")),
-                // the same name inside namespace ns1 (another scope of the name map, the same name for the entry lookup)
-                2 => added.push(plain(tname.clone(), other_shape, "N")),
+                // the same name inside namespace ns1 (another scope of the name map, the same name for the entry lookup);
+                // only for entry points: a helper of that name inside ns1 would hide the root helper from callers in ns1
+                2 => added.push(plain(tname.clone(), other_shape, if is_entry { "N" } else { "" })),
                 // a method of that name (registered in the namespace of its struct)
                 3 => added.push(plain(tname.clone(), 'h', "M")),
                 // the first generated candidate `f_0` is taken by a function of its own, next to an overload of `f`
